@@ -73,7 +73,16 @@ let rec dump (g : geom) : string =
       | KMultiPolygon -> "MG" | KMultiCurve -> "MC" | KMultiSurface -> "MS" | KCollection -> "GC") in
     Printf.sprintf "(%s %d%s)" kc (List.length l) (String.concat "" (List.map (fun x -> " " ^ dump x) l))
 
-let number_printer trim prec = fun (a : z) -> if trim then print_trimmed a (z_of_int prec) else print_untrimmed a (z_of_int prec)
+(* print_trimmed a p = print_trimmed_sd (decode a) (shortest_of (decode a)) p by definition; the digits are cached per bit pattern *)
+let sd_cache : (string, dbl * (z * z)) Hashtbl.t = Hashtbl.create 256
+let digits_of_bits (a : z) =
+  let k = hex_of_z a in
+  match Hashtbl.find_opt sd_cache k with
+  | Some r -> r
+  | None -> let d = decode a in let r = (d, shortest_of d) in
+            if Hashtbl.length sd_cache > 20000 then Hashtbl.reset sd_cache; Hashtbl.add sd_cache k r; r
+let number_printer trim prec = fun (a : z) ->
+  if trim then (let (d, sd) = digits_of_bits a in print_trimmed_sd d sd (z_of_int prec)) else print_untrimmed a (z_of_int prec)
 
 let () =
   try while true do
